@@ -84,7 +84,7 @@ meta("C03",
 meta("C13",
      rule="documents assembled from pools of GFA1-only, GFA2-only and version-neutral lines (pure, neutral, mixed; every line distinct so that multiplicity is observable) x explicit version {None,gfa1,gfa2} x dialect {standard,rgfa} x entry point {Gfa(list), Gfa(str), from_file} x vlevel; ALL permutations for documents of <=6 (quick) / <=7 (thorough) lines; expected version / VersionError from the independent line classifier; each input line must appear exactly once; non-trivial = document with a version-ambiguous line arriving before the deciding line 20% line-by-line scenarios: refused lines which hint at a version among neutral lines, then content of either version: the version follows from the accepted lines alone. Documents with a VN header naming a version which does not exist (1.1, 2.1, gfa1, ...): refused in every order.",
      budget={"quick": 25, "thorough": 400},
-     min_counts={"quick": {"unsupported_vn_documents_orders": 300, "objects_of_other_version_offered": 40, "header_vn_assignments": 40, "incremental_calls": 250, "incremental_refusals": 60, "orders": 20000, "documents_all_orders": 200}},
+     min_counts={"quick": {"unsupported_vn_documents_orders": 300, "objects_of_other_version_offered": 40, "header_vn_assignments": 40, "deciding_objects_offered": 30, "incremental_calls": 250, "incremental_refusals": 60, "orders": 20000, "documents_all_orders": 200}},
      set_samples=["kinds"])
 
 meta("C10",
